@@ -207,7 +207,7 @@ MC_INIT
     });
 
     // (3) LARGE: a string of 127..1000 (thorough ..70000) bytes with delimiters at 1,254..257,len-1, tokenised to the end
-    mc::add_check("strtok_large", [] {
+    auto body_strtok_large = [] {
         init_arenas();
         std::vector<size_t> LS = large_lengths();
         int c0 = mc::choose((int)LS.size() * 2 * 2);
@@ -242,7 +242,7 @@ MC_INIT
                 snprintf(K.extra, sizeof K.extra, "(call %zu of the sequence)", k + 1);
                 char *ai = k ? nullptr : (char *)bi, *ar = k ? nullptr : (char *)br;
                 char *ri = nullptr, *rr = reent ? strtok_r(ar, (char *)dr, &svr) : strtok(ar, (char *)dr);
-                bool ok = mc::guarded([&] { ri = reent ? igc_strtok_r(ai, (char *)di, &svi) : igc_strtok(ai, (char *)di); });
+                bool ok = guarded_ro([&] { ri = reent ? igc_strtok_r(ai, (char *)di, &svi) : igc_strtok(ai, (char *)di); });
                 ncalls++;
                 if (!ok)
                 {
@@ -269,5 +269,12 @@ MC_INIT
         if (calls)
             mc::more_cases(calls - 1, calls - 1);
         flush_notes();
+    };
+    mc::add_check("strtok_large", body_strtok_large);
+    // the same with the const operands of every call mapped read-only during the call
+    mc::add_check("strtok_large.readonly", [body_strtok_large] {
+        RO_ON = true;
+        body_strtok_large();
+        RO_ON = false;
     });
 }
